@@ -67,6 +67,14 @@ Theorem C06_cid_alias_exists : exists n n' : Z, n <> n' /\ (0 <= n < 2 ^ 256)%Z 
   @of_Z Fq n = @of_Z Fq n'.
 Proof. exact cid_alias_exists. Qed.
 
+(** ... and the known class is exact: two ids share a scalar if and only if they are congruent modulo q; in particular changing
+    any single bit of a 256-bit id changes its scalar *)
+Theorem C06_cid_scalars_equal_iff_congruent : forall n n' : Z, @of_Z Fq n = @of_Z Fq n' <-> (n mod q_bls = n' mod q_bls)%Z.
+Proof. exact scalars_equal_iff_congruent. Qed.
+Theorem C06_cid_bit_flip_changes_scalar : forall n k : Z, (0 <= k < 256)%Z ->
+  @of_Z Fq n <> @of_Z Fq (n + 2 ^ k) /\ @of_Z Fq n <> @of_Z Fq (n - 2 ^ k).
+Proof. exact cid_bit_flip_changes_scalar. Qed.
+
 Print Assumptions C06_unique_accepting_challenge.
 Print Assumptions C06_accepting_challenge_formula.
 Print Assumptions C06_establish_two_statements.
@@ -77,3 +85,5 @@ Print Assumptions C06_replace_rev_params.
 Print Assumptions C06_establish_transcripts_differ.
 Print Assumptions C06_close_message_substitution.
 Print Assumptions C06_cid_alias_exists.
+Print Assumptions C06_cid_scalars_equal_iff_congruent.
+Print Assumptions C06_cid_bit_flip_changes_scalar.
